@@ -24,18 +24,22 @@ Judge(r) ==
            occ == OccOf(P, r.oid)
            d == occ.node
            at == " renaming occurrence " \o ToString(r.oid) \o " (" \o occ.name \o " in " \o occ.file \o ") to " \o r.new IN
-  IF d = -1 \/ d = NoNode \/ occ.name = "super" THEN <<>>
+  IF P.mav \/ d = -1 \/ d = NoNode \/ occ.name = "super" THEN <<>>
   ELSE IF r.status # "ok"
     THEN IF NestedIf0(files[r.main], FALSE, files) THEN <<V(r.id, "deviation", "NestedGreedyAnalysisPanics", "server died: " \o r.panic)>>
          ELSE <<V(r.id, "violation", "", "server died or did not answer (" \o r.panic \o ")" \o at)>>
   ELSE IF ~r.offered THEN <<>>                         \* C15 speaks about occurrences at which a rename is offered
   ELSE LET exp == {[oid |-> o, text |-> r.new] : o \in RenameSet(P, r.oid)}
-           U == {x.oid : x \in {y \in P.occs : y.node = -1}}     \* occurrences the model cannot resolve: unspecified
+           U1 == {x.oid : x \in {y \in P.occs : y.node = -1}}     \* occurrences the model cannot resolve: unspecified
+           U == U1 \cup {x.oid : x \in {y \in P.occs : y.node = NoNode}}   \* ... or that denote nothing the property speaks about
            obs == {e \in SeqSet(r.edits) : e.oid \notin U}
            stray == {e.oid : e \in (obs \ exp) \cup (exp \ obs)}
            supers == {o.oid : o \in {x \in P.occs : x.name = "super"}} IN
        IF obs # exp
-         THEN IF obs = {} /\ occ.file # r.main      \* inside an imported file the position is also inside the file definition, which is not renamable
+         THEN IF \E it \in AliasedItems(files[r.main]) : NodeOf(P, it.oid) = d
+                (* the symbol is imported as `a as x': that argument is one usage, the edit blanks it and renames the uses of the alias *)
+                THEN <<V(r.id, "deviation", "AliasedImportArgIsOneUsage", "edit set " \o ToString(obs) \o " expected " \o ToString(exp) \o at)>>
+              ELSE IF obs = {} /\ occ.file # r.main      \* inside an imported file the position is also inside the file definition, which is not renamable
                 THEN <<V(r.id, "deviation", "ImportedFileSpanShadowsSymbols", "rename offered but no edit returned" \o at)>>
               ELSE IF stray # {} /\ stray \subseteq ShadowedCalls(P, d)
                 THEN <<V(r.id, "deviation", "RenameSkipsShadowedMacroCall", "edit set " \o ToString(obs) \o " expected " \o ToString(exp) \o at)>>
@@ -44,7 +48,7 @@ Judge(r) ==
               ELSE IF Ambiguous(P, r.oid, ord) \/ \A x \in stray : Ambiguous(P, x, ord)
                 THEN <<V(r.id, "deviation", "UsageOfEarlierPassKept", "edit set " \o ToString(obs) \o " expected " \o ToString(exp) \o at)>>
               ELSE <<V(r.id, "violation", "", "rename edit " \o ToString(obs) \o " is not the set of occurrences of the symbol " \o ToString(exp) \o at)>>
-       ELSE IF U # {} \/ ~CaptureFree(files, r.main, r.oid, r.new) THEN <<>>       \* the new name collides/captures: no edit can preserve the build, C15 is silent
+       ELSE IF U1 # {} \/ ~CaptureFree(files, r.main, r.oid, r.new) THEN <<>>       \* the new name collides/captures: no edit can preserve the build, C15 is silent
        ELSE IF ~r.okAfter \/ r.digestAfter # r.digestBefore
          THEN <<V(r.id, "violation", "", "the edited project does not build to the same output" \o at)>>
        ELSE IF r.backDone /\ r.backText = r.origText THEN <<>>
